@@ -26,6 +26,7 @@ type HSpec struct {
 	Reach     []string       `json:"reach"` // vacuity witnesses that must be reached
 	MergeOff  bool           `json:"merge_off"`
 	Automaton int            `json:"automaton"` // >0: state-merged exploration, value = cap on abstract states
+	LockDisc  bool           `json:"lock_discipline"`
 	Corpus    bool           `json:"corpus"`    // translator validation on the repository's test corpus
 	CorpusLoop string        `json:"corpus_loop"` // "Schema" / "Enum" / "Doc": run once per corpus text of that kind
 }
@@ -205,7 +206,7 @@ func runCheck(args []string) int {
 			continue
 		}
 		r := &Run{Env: env, Harness: modPath + "/" + h.Fn, Params: params, MapOrder: h.MapOrder, PanicIsOK: h.PanicIsOK,
-			PoolDrain: h.PoolDrain, Fuel: h.Fuel, MergeOff: h.MergeOff, Quiet: false, DiffEvery: 97}
+			PoolDrain: h.PoolDrain, LockDisc: h.LockDisc, Fuel: h.Fuel, MergeOff: h.MergeOff, Quiet: false, DiffEvery: 97}
 		if strings.HasPrefix(h.Fn, ".") {
 			r.Harness = modPath + h.Fn
 		}
@@ -283,6 +284,9 @@ func runCheck(args []string) int {
 	byPkg := map[string][]string{}
 	for _, k := range order {
 		p := pkgOfHarness(byKey[k].Harness)
+		if isRaceLabel(byKey[k].Label) {
+			p += "|race" // replayed by a binary built with the race detector, one process per case
+		}
 		byPkg[p] = append(byPkg[p], k)
 	}
 	confirmed := map[string]bool{}
@@ -307,6 +311,9 @@ func runCheck(args []string) int {
 				}
 			}
 			if v.Label == "uncaught-panic" && rr.Panic != "" {
+				ok = true
+			}
+			if isRaceLabel(v.Label) && strings.Contains(rr.Panic, "DATA RACE") {
 				ok = true
 			}
 			if ok {
